@@ -84,6 +84,74 @@ def inline_single_return_calls(fn, expr, module_find=None, depth: int = 0):
     return ast.fix_missing_locations(out)
 
 
+def specialise_call(helper, call):
+    """a copy of `helper` as it runs for this call: parameters bound to literal arguments (or literal defaults) are replaced by the
+    literals, `if` statements whose test became a literal are pruned to the arm taken, and f-string slots that became string literals are
+    folded into the text.  Parameters bound to non-literal arguments are replaced by the argument expression.  Line numbers are kept."""
+    import copy as _copy
+    par = getattr(helper, "_parent", None)
+    h = _copy.deepcopy(helper, {id(par): par} if par is not None else {})
+    ps = [a.arg for a in h.args.args]
+    defaults = dict(zip(ps[len(ps) - len(h.args.defaults):], h.args.defaults))
+    bind = {}
+    for p_, a_ in zip(ps, call.args):
+        bind[p_] = a_
+    for k in call.keywords:
+        if k.arg in ps:
+            bind[k.arg] = k.value
+    for p_, d_ in defaults.items():
+        bind.setdefault(p_, d_)
+
+    class _S(ast.NodeTransformer):
+        def visit_FunctionDef(self, node):
+            if node is not h:
+                # a nested function that re-uses a bound name as its own parameter shadows it
+                inner = {a.arg for a in node.args.args}
+                saved = dict(bind)
+                for k in inner:
+                    bind.pop(k, None)
+                self.generic_visit(node)
+                bind.clear(); bind.update(saved)
+                return node
+            self.generic_visit(node)
+            return node
+
+        def visit_Name(self, node):
+            if isinstance(node.ctx, ast.Load) and node.id in bind:
+                return ast.copy_location(_copy.deepcopy(bind[node.id]), node)
+            return node
+
+        def visit_If(self, node):
+            self.generic_visit(node)
+            if isinstance(node.test, ast.Constant):
+                return node.body if node.test.value else (node.orelse or [ast.copy_location(ast.Pass(), node)])
+            return node
+
+        def visit_JoinedStr(self, node):
+            self.generic_visit(node)
+            vals, buf = [], ""
+            for v in node.values:
+                if isinstance(v, ast.Constant) and isinstance(v.value, str):
+                    buf += v.value
+                elif isinstance(v, ast.FormattedValue) and isinstance(v.value, ast.Constant) and isinstance(v.value.value, str) and v.format_spec is None:
+                    buf += v.value.value
+                else:
+                    if buf:
+                        vals.append(ast.Constant(value=buf)); buf = ""
+                    vals.append(v)
+            if buf:
+                vals.append(ast.Constant(value=buf))
+            if len(vals) == 1 and isinstance(vals[0], ast.Constant):
+                return ast.copy_location(vals[0], node)
+            node.values = vals
+            return node
+    h = _S().visit(h)
+    ast.fix_missing_locations(h)
+    set_parents(h)
+    h._parent = par
+    return h
+
+
 def unroll_literal_loops(fn):
     """a copy of the function in which every `for a, b in ((x1, y1), (x2, y2)): body` over a *literal* tuple / list is replaced by the
     bodies with a, b substituted — the table-driven form of two parallel blocks reads like the blocks themselves.  Loops whose body
